@@ -187,7 +187,11 @@ def check_sparse(res, facts):
             # is the vector part of a SparsePolynomial?
             v = op_local(t["args"][0])
             tgt = dep.pointee.get(v, set()) | {v}
-            if not any(SPARSE + "<" in fn.local_ty(x) for x in tgt):
+            in_sparse = any(SPARSE + "<" in fn.local_ty(x) for x in tgt)
+            # a scratch Vec<(usize, F)> in a function that produces a SparsePolynomial counts as well
+            produces = SPARSE + "<" in fn.local_ty(0) or any(fn.local_ty(a).startswith("&mut") and SPARSE + "<" in fn.local_ty(a) for a in range(1, fn.d["argc"] + 1))
+            scratch = produces and any("alloc::vec::Vec<(usize," in fn.local_ty(x) for x in tgt)
+            if not (in_sparse or scratch):
                 continue
             item = op_local(t["args"][1])
             arith = [c for c in dep.calls_in_slice([item]) if c[1]["f"].get("trait", "").startswith("core::ops::arith::") and c[1]["f"].get("name") in ("add", "sub", "mul")]
@@ -198,13 +202,19 @@ def check_sparse(res, facts):
                 rule.ok(key, "pushes a term copied from an operand", fn.loc)
                 continue
             guarded = False
+            # the value whose zero-ness matters: result local(s) of the producing arithmetic call
+            produced = arith_result_locals(fn, item)
             for (sw, succ) in transitive_cd(cd, bb):
                 o = fn.bbs[sw]["t"].get("o")
                 l = op_local(o) if o else None
                 if l is None:
                     continue
-                if any(c[1]["f"].get("name") == "is_zero" for c in dep.calls_in_slice([l])):
-                    guarded = True
+                for _, c in dep.calls_in_slice([l]):
+                    if c["f"].get("name") != "is_zero" or not c["args"]:
+                        continue
+                    al = op_local(c["args"][0])
+                    if al is not None and (dep.slice([al]) & produced):
+                        guarded = True
             if guarded:
                 rule.ok(key, "guarded by is_zero", fn.loc)
             else:
@@ -234,6 +244,31 @@ def direct_arith(fn, local, depth=6):
                         st.append(x)
         depth -= 0
     return None
+
+
+def arith_result_locals(fn, local):
+    """locals holding the result of the arithmetic call(s) that directly feed `local`"""
+    defs = fn.defs()
+    out = set()
+    seen = set()
+    st = [local]
+    while st:
+        l = st.pop()
+        if l in seen:
+            continue
+        seen.add(l)
+        for d in defs.get(l, []):
+            if d[2] == "call":
+                f = d[3]["f"]
+                if f.get("trait", "").startswith("core::ops::arith::") and f.get("name") in ("add", "sub", "mul", "neg"):
+                    out.add(l)
+            elif d[2] == "assign":
+                r = d[3]["r"]
+                for o in (r.get("ops") or ([r["o"]] if "o" in r else [])):
+                    x = op_local(o)
+                    if x is not None:
+                        st.append(x)
+    return out
 
 
 def transitive_cd(cd, bb):
